@@ -675,6 +675,7 @@ func C04(cfg Cfg) int {
 		run.Inconclusive(err.Error())
 	}
 	c04Independent(run, cfg, func(w string, wit any) { run.Violate(w, wit) })
+	c04LargeBatches(run, cfg, func(w string, wit any) { run.Violate(w, wit) })
 	raceChild(run, cfg, "C04race")
 	return run.Finish()
 }
@@ -820,5 +821,101 @@ func c04Independent(run *evid.Run, cfg Cfg, violate func(string, any)) {
 	run.Distinct(fmt.Sprintf("independent clients: %d clients x 2 private keys, released>0=%v", clients, released.Load() > 0))
 	if released.Load() == 0 {
 		run.Inconclusive("independent clients released nothing")
+	}
+}
+
+// c04LargeBatches: several clients send, at the same time, attestation batches naming the SAME few hundred keys
+// (each in its own order) with the same epochs and their own block root.  One at a time, whichever batch comes first
+// is signed in full and every other batch is refused in full; so over all keys there must be one winner, the same
+// for every key.  Winners that differ from key to key mean the batches were interleaved.
+func c04LargeBatches(run *evid.Run, cfg Cfg, violate func(string, any)) {
+	env, err := NewEnv(run, cfg, "c04-large", rig.StackOpts{})
+	if err != nil {
+		run.Inconclusive(err.Error())
+		return
+	}
+	defer env.Stack.Close()
+	defer runtime.GOMAXPROCS(runtime.GOMAXPROCS(0))
+	r := cfg.Rand("c04-large")
+	sizes := []int{130, 300, 600}
+	rounds := cfg.N(9, 60)
+	for round := 0; round < rounds && run.NumViolations() < 5; round++ {
+		n := sizes[round%len(sizes)]
+		clients := 2 + round%3
+		runtime.GOMAXPROCS(procsMix[round%len(procsMix)])
+		env.FreshKeys(n)
+		keys, names := env.Keys, env.Names
+		epoch := uint64(20 + round)
+		results := make([][]core.Result, clients)
+		sigs := make([][][]byte, clients)
+		orders := make([][]int, clients)
+		var wg sync.WaitGroup
+		start := make(chan struct{})
+		for c := 0; c < clients; c++ {
+			order := r.Perm(n)
+			if c%2 == 1 {
+				// the exact reverse of the previous client's order
+				for i := range order {
+					order[i] = orders[c-1][n-1-i]
+				}
+			}
+			orders[c] = order
+			cs := make([]*AttCase, n)
+			for i, k := range order {
+				cs[i] = mkAtt(keys[k], names[k], 0, 1, byte(0xa0+c))
+				cs[i].Data.Source.Epoch, cs[i].Data.Target.Epoch, cs[i].Data.Slot = epoch, epoch+1, (epoch+1)*32
+				if (i+c)%3 == 0 {
+					cs[i].Addr = ByKey
+				}
+			}
+			wg.Add(1)
+			c := c
+			go func() {
+				defer wg.Done()
+				<-start
+				results[c], sigs[c] = env.SignAtts(ViaService, cs)
+			}()
+		}
+		close(start)
+		wg.Wait()
+		// Per key: who was signed?
+		winnerOf := make([]int, n)
+		wins := make([]int, clients)
+		for k := range winnerOf {
+			winnerOf[k] = -1
+		}
+		double := 0
+		for c := 0; c < clients; c++ {
+			for i, k := range orders[c] {
+				if i < len(results[c]) && results[c][i] == core.ResultSucceeded && i < len(sigs[c]) && len(sigs[c][i]) > 0 {
+					if winnerOf[k] >= 0 {
+						double++
+					}
+					winnerOf[k] = c
+					wins[c]++
+				}
+			}
+		}
+		run.Eval(n * clients)
+		run.Count("large_batch_rounds", 1)
+		run.Distinct(fmt.Sprintf("large batches n=%d clients=%d -> wins=%v", n, clients, wins != nil))
+		witness := map[string]any{"keys": n, "clients": clients, "entries_signed_per_client": wins, "gomaxprocs": runtime.GOMAXPROCS(0)}
+		if double > 0 {
+			violate(fmt.Sprintf("large overlapping batches: %d keys were signed for two different attestations with the same target", double), witness)
+			continue
+		}
+		full := 0
+		for c := range wins {
+			if wins[c] == n {
+				full++
+			} else if wins[c] != 0 {
+				violate(fmt.Sprintf("large overlapping batches over the same %d keys were interleaved: the clients were signed %v entries each; one at a time, one batch is signed in full and the others not at all", n, wins), witness)
+				full = -1
+				break
+			}
+		}
+		if full == 0 {
+			violate(fmt.Sprintf("large overlapping batches over the same %d fresh keys: no batch was signed in full (%v), although whichever comes first advances every key", n, wins), witness)
+		}
 	}
 }
